@@ -69,13 +69,18 @@ type Ctx struct {
 	Rng    *rand.Rand
 	Res    *Result
 	caseSB strings.Builder
+	inCorr bool // inside a correspondence: counts grow less in the thorough tier
 }
 
 // N scales a quick-tier count by tier and boost.
 func (c *Ctx) N(quick int) int {
 	n := quick
 	if c.Tier == "thorough" {
-		n *= 10
+		if c.inCorr {
+			n *= 3 // cases files are elaborated by Coq at 20-25 s per MB and several GB of memory
+		} else {
+			n *= 10
+		}
 	}
 	if c.Boost > 1 {
 		n *= c.Boost
@@ -135,6 +140,7 @@ func main() {
 		// the correspondence draws from its own PRNG stream so that adding oracle cases does not shift it
 		c.Rng = rand.New(rand.NewSource(*seed*7919 + 13))
 		c.Boost = 0 // the directed search enlarges the oracle's budget, not the correspondence
+		c.inCorr = true
 		cfn(c)
 	}
 	c.Res.Distinct = len(c.Res.distinct)
